@@ -13,7 +13,7 @@ import random
 import socket
 import struct
 
-from . import mclient, proto, scen
+from . import kernel, mclient, proto, scen
 from .scen import US
 
 TUNS = ["10.9.0.1/24", "10.9.0.1/24", "10.9.0.5/28", "172.20.1.1/16", "10.9.0.1/29", "10.9.0.2/30",
@@ -86,7 +86,7 @@ def run_history(tag, cfg, seed, nops=None):
     # start with two sessions so that there is always something to attack
     _join(H, "l")
     _join(H, rng.choice(["v", "l", "raw"]))
-    weights = (["join"] * 3 + ["legit"] * 6 + ["down"] * 3 + ["attack"] * 10 + ["login_attack"] * 5 +
+    weights = (["join"] * 3 + ["join_same_ip"] * 2 + ["legit"] * 6 + ["down"] * 3 + ["attack"] * 10 + ["login_attack"] * 5 +
                ["advance"] * 3 + ["reuse"] * 2 + ["down_odd"] * 2 + ["raw_shadow"] * 2)
     for _ in range(n):
         if not H.srv.alive() or k.stalled:
@@ -104,10 +104,28 @@ def run_history(tag, cfg, seed, nops=None):
 
 # ---------------------------------------------------------------------------
 
-def _new_party(H, role):
+class PortRouter(kernel.Actor):
+    """Several model clients behind one address (a NAT / a shared resolver): answers go to whoever owns the port."""
+
+    def __init__(self, ip, first):
+        kernel.Actor.__init__(self, ip)
+        self.children = [first]
+
+    def on_datagram(self, src, dst, data):
+        for c in self.children:
+            if c.sport == dst[1]:
+                return c.on_datagram(src, dst, data)
+        return self.children[0].on_datagram(src, dst, data)
+
+
+def _new_party(H, role, share_with=None):
     rng = H.rng
     v6 = H.cfg["v6"] and rng.random() < 0.5
-    if role == "legit":
+    if share_with is not None:
+        ip = share_with.mc.ip
+        v6 = ":" in ip
+        H.nleg += 1
+    elif role == "legit":
         H.nleg += 1
         ip = ("fd53::2:%x" % H.nleg) if v6 else "10.53.2.%d" % H.nleg
     else:
@@ -116,7 +134,18 @@ def _new_party(H, role):
     server = (scen.SERVER_IP6 if v6 else scen.SERVER_IP, 53)
     mc = mclient.ModelClient(ip, server, H.domain, H.password, random.Random(rng.getrandbits(32)),
                              qtype=H.cfg["qtype"] if rng.random() < 0.6 else rng.choice(list(proto.QTYPES.values())))
-    H.k.add_actor(ip, mc)
+    if share_with is not None:
+        cur = H.k.actors[ip]
+        if not isinstance(cur, PortRouter):
+            cur = PortRouter(ip, cur)
+            H.k.add_actor(ip, cur)
+        used = {c.sport for c in cur.children}
+        while mc.sport in used:
+            mc.sport = rng.randrange(1024, 65000)
+        mc.kernel = H.k
+        cur.children.append(mc)
+    else:
+        H.k.add_actor(ip, mc)
     p = Party(mc, role, "%s%d" % (role[0], H.nleg if role == "legit" else H.natt))
     H.parties.append(p)
     return p
@@ -159,9 +188,9 @@ def _raw_login(H, p):
     return False
 
 
-def _join(H, want=None):
+def _join(H, want=None, share_with=None):
     rng = H.rng
-    p = _new_party(H, "legit")
+    p = _new_party(H, "legit", share_with)
     if not _version(H, p):
         return p
     want = want or rng.choice(["v", "badlogin", "l", "l", "l", "raw"])
@@ -237,6 +266,29 @@ def _send_up(H, p, frame, slot=None, via=None):
 
 def op_join(H):
     _join(H)
+
+
+def op_join_same_ip(H):
+    """A newcomer behind the address of a session that is still live (second client behind one NAT / resolver):
+    it does the version handshake and then behaves like any party at that stage - including sending data and
+    commands without having logged in."""
+    live = [p for p in H.parties if p.role == "legit" and p.stage in ("l", "raw") and _alive(H, p)]
+    if not live:
+        return _join(H)
+    owner = H.rng.choice(live)
+    want = H.rng.choice(["v", "v", "badlogin", "l"])
+    p = _join(H, want, share_with=owner)
+    if p.slot is None:
+        return
+    if want != "l" or p.stage != "l":
+        # not logged in: whatever slot the server handed out, nothing privileged may come of its traffic
+        for _ in range(H.rng.randint(1, 3)):
+            f = _frame(H, owner.mc.tun_ip or "10.9.0.2", H.server_tun_ip)
+            _send_up(H, p, f, slot=p.slot)
+            H.attacks[("data", "same-ip-newcomer", "owner-ip")] = H.attacks.get(("data", "same-ip-newcomer", "owner-ip"), 0) + 1
+        p.mc.query(p.mc.ping_labels() if hasattr(p.mc, "ping_labels") else proto.msg_ping(p.mc.domain, p.slot, 0, 0, p.mc.new_cmc()))
+        H.k.run(H.k.now + 30000)
+        p.mc.drain()
 
 
 def op_legit(H):
@@ -569,4 +621,4 @@ def op_raw_shadow(H):
 
 
 OPS = {"raw_shadow": op_raw_shadow, "join": op_join, "legit": op_legit, "down": op_down, "down_odd": op_down_odd, "attack": op_attack,
-       "login_attack": op_login_attack, "advance": op_advance, "reuse": op_reuse}
+       "login_attack": op_login_attack, "advance": op_advance, "reuse": op_reuse, "join_same_ip": op_join_same_ip}
